@@ -138,38 +138,28 @@ Theorem c19_run_decode_sb : forall sb, sb_t2 sb < 26 -> sb_t3p sb <= 4 ->
 Proof. exact decode_sb_ok. Qed.
 Print Assumptions c19_run_decode_sb.
 
-(* prim_fbsb.c l1s_sbdet_resp re-initialisation, every state, every frame number of the burst below 2715646 (every SCH frame is):
-   the invariant holds and the current frame is that of the burst + SB2_LATENCY *)
-Theorem c19_run_fbsb : forall st m, 0 <= m < 2715646 ->
-  TimeOK (fbsb_reinit st m) /\ g_fn (cur (fbsb_reinit st m)) = m + 2 /\ tpu (fbsb_reinit st m) = tpu st.
+(* prim_fbsb.c l1s_sbdet_resp re-initialisation, every state, every uint32_t frame number of the burst for which + SB2_LATENCY does not
+   wrap: the invariant holds and the current frame is that of the burst + SB2_LATENCY modulo the hyperframe *)
+Theorem c19_run_fbsb : forall st m, 0 <= m < 4294967294 ->
+  TimeOK (fbsb_reinit st m) /\ g_fn (cur (fbsb_reinit st m)) = (m + 2) mod 2715648 /\ tpu (fbsb_reinit st m) = tpu st.
 Proof. exact fbsb_ok. Qed.
 Print Assumptions c19_run_fbsb.
 
-(* REFUTED beyond: the expression fbs.mon.time.fn + SB2_LATENCY is not reduced; a burst word outside the coding
-   (T1 2047, T2 20, T3' 7) decodes to FN 2715668 and the running time becomes FN 2715670, T1 2048, next FN 23 with T1 2048 *)
-Theorem c19_site_fbsb_refuted :
-  site_prim_fbsb_1 2715646 0 = 2715648 /\ site_prim_fbsb_1 2715647 0 = 2715649 /\
-  gt_obs (cur (fbsb_reinit boot 2715646)) = [2715648; 2048; 0; 0; 0] /\ gt_obs (nxt (fbsb_reinit boot 2715646)) = [1; 2048; 1; 1; 0].
-Proof. exact fbsb_site_refuted. Qed.
-Print Assumptions c19_site_fbsb_refuted.
-
-Theorem c19_run_decode_sb_refuted :
-  sb_t1 30670595 = 2047 /\ sb_t2 30670595 = 20 /\ sb_t3p 30670595 = 7 /\
-  gt_obs (decode_sb 30670595) = [2715668; 2047; 20; 71; 0] /\
-  st_obs (step boot (OSb 30670595)) = [2715670; 2048; 22; 22; 0; 23; 2048; 23; 23; 0; 0].
-Proof. exact decode_sb_refuted. Qed.
-Print Assumptions c19_run_decode_sb_refuted.
+(* every burst word, also one outside the coding, decodes to a frame number in that range *)
+Theorem c19_run_decode_sb_any : forall sb, 0 <= g_fn (decode_sb sb) < 4294967294.
+Proof. exact decode_sb_small. Qed.
+Print Assumptions c19_run_decode_sb_any.
 
 (* every reachable running time is consistent: any sequence of frame interrupts (runs of any length), re-synchronisations with
-   fn_offset 1 .. 2715648 (any time alignment), re-initialisations from SCH frames (as a frame number below 2715646 or as a burst
-   word with T2 < 26, T3' <= 4) keeps the invariant - from any state of the invariant, and from the .bss start state as soon as
+   fn_offset 1 .. 2715648 (any time alignment), re-initialisations from ANY burst word or any frame number below 2^32 - 2
+   keeps the invariant - from any state of the invariant, and from the .bss start state as soon as
    the first operation is not an empty run of interrupts *)
 Theorem c19_run_history : forall ops st, TimeOK st ->
   Forall (fun o => match o with
                    | OIrq _ => True
                    | OSync fo _ => 1 <= fo <= 2715648
-                   | OFbsb m => 0 <= m < 2715646
-                   | OSb sb => sb_t2 sb < 26 /\ sb_t3p sb <= 4
+                   | OFbsb m => 0 <= m < 4294967294
+                   | OSb sb => True
                    | ORaw s => TimeOK s
                    end) ops ->
   TimeOK (fold_left step ops st).
@@ -180,8 +170,8 @@ Theorem c19_run_history_boot : forall o ops, o <> OIrq O ->
   Forall (fun o => match o with
                    | OIrq _ => True
                    | OSync fo _ => 1 <= fo <= 2715648
-                   | OFbsb m => 0 <= m < 2715646
-                   | OSb sb => sb_t2 sb < 26 /\ sb_t3p sb <= 4
+                   | OFbsb m => 0 <= m < 4294967294
+                   | OSb sb => True
                    | ORaw s => TimeOK s
                    end) (o :: ops) ->
   TimeOK (fold_left step (o :: ops) boot).
@@ -202,35 +192,20 @@ Theorem c19_site_tch_2 : forall v aux, 0 <= v < 2715648 ->
 Proof. exact site_tch_2. Qed.
 Print Assumptions c19_site_tch_2.
 
-(* prim_rx_nb.c  l1s.current_time.fn - 1 : right for current frames 1 .. 2715647 only ... *)
-Theorem c19_site_rx_nb_1 : forall v aux, 1 <= v < 2715648 ->
+(* prim_rx_nb.c  (l1s.current_time.fn - 1 + GSM_MAX_FN) % GSM_MAX_FN : every current frame *)
+Theorem c19_site_rx_nb_1 : forall v aux, 0 <= v < 2715648 ->
   site_prim_rx_nb_1 v aux = (v - 1) mod 2715648 /\ fn2gsmtime (site_prim_rx_nb_1 v aux) = decomp ((v - 1) mod 2715648).
 Proof. exact site_rx_nb_1. Qed.
 Print Assumptions c19_site_rx_nb_1.
 
-(* ... REFUTED at current frame 0: the argument is 4294967295 and the time handed to rfch_get_params is T1 27776, T2 21, T3 0
-   instead of frame 2715647 = (2047, 25, 50) *)
-Theorem c19_site_rx_nb_1_refuted :
-  site_prim_rx_nb_1 0 0 = 4294967295 /\ gt_obs (fn2gsmtime (site_prim_rx_nb_1 0 0)) = [4294967295; 27776; 21; 0; 5] /\
-  gt_obs (decomp ((0 - 1) mod 2715648)) = [2715647; 2047; 25; 50; 7].
-Proof. exact site_rx_nb_1_refuted. Qed.
-Print Assumptions c19_site_rx_nb_1_refuted.
-
-(* prim_rx_nb.c  l1s.current_time.fn - 4 : right for current frames 4 .. 2715647 only, REFUTED at 0 .. 3 *)
-Theorem c19_site_rx_nb_2 : forall v aux, 4 <= v < 2715648 ->
+(* prim_rx_nb.c  (l1s.current_time.fn - 4 + GSM_MAX_FN) % GSM_MAX_FN : every current frame *)
+Theorem c19_site_rx_nb_2 : forall v aux, 0 <= v < 2715648 ->
   site_prim_rx_nb_2 v aux = (v - 4) mod 2715648 /\ fn2gsmtime (site_prim_rx_nb_2 v aux) = decomp ((v - 4) mod 2715648).
 Proof. exact site_rx_nb_2. Qed.
 Print Assumptions c19_site_rx_nb_2.
 
-Theorem c19_site_rx_nb_2_refuted :
-  site_prim_rx_nb_2 0 0 = 4294967292 /\ site_prim_rx_nb_2 1 0 = 4294967293 /\ site_prim_rx_nb_2 2 0 = 4294967294 /\ site_prim_rx_nb_2 3 0 = 4294967295 /\
-  gt_obs (fn2gsmtime (site_prim_rx_nb_2 3 0)) = [4294967295; 27776; 21; 0; 5] /\
-  gt_obs (decomp ((3 - 4) mod 2715648)) = [2715647; 2047; 25; 50; 7].
-Proof. exact site_rx_nb_2_refuted. Qed.
-Print Assumptions c19_site_rx_nb_2_refuted.
-
-(* prim_fbsb.c  fbs.mon.time.fn + SB2_LATENCY : right below 2715646 (refutation beyond: c19_site_fbsb_refuted) *)
-Theorem c19_site_fbsb : forall m aux, 0 <= m < 2715646 ->
+(* prim_fbsb.c  (fbs.mon.time.fn + SB2_LATENCY) % GSM_MAX_FN : every uint32_t frame number for which the addition does not wrap *)
+Theorem c19_site_fbsb : forall m aux, 0 <= m < 4294967294 ->
   site_prim_fbsb_1 m aux = (m + 2) mod 2715648 /\ fn2gsmtime (site_prim_fbsb_1 m aux) = decomp ((m + 2) mod 2715648).
 Proof. exact site_fbsb_1. Qed.
 Print Assumptions c19_site_fbsb.
